@@ -446,8 +446,19 @@ func ruleCloseOrder(r *Run, p *Program, rule string) {
 	}
 	// every success return passes each required step, and the steps precede Unlock
 	steps := []string{"(*pogreb.DB).writeMeta", "(*pogreb.datalog).close", "(*pogreb.index).close", "(*pogreb.index).writeMeta"}
+	// the db-meta step by what it does when it is not found by name: the function that stores into dbMeta
+	dbMetaWriter := ""
+	if p.Fn(steps[0]) == nil {
+		for _, st := range storesToField(p, "pogreb.dbMeta.HashSeed") {
+			dbMetaWriter = funcKey(st.Parent())
+		}
+	}
 	for _, s := range steps {
-		isStep := func(n Node) bool { return calleeOfNode(all, n) == s }
+		s := s
+		isStep := func(n Node) bool {
+			k := calleeOfNode(all, n)
+			return k == s || (s == steps[0] && dbMetaWriter != "" && k == dbMetaWriter)
+		}
 		w := &IPWalk{P: p, Visit: isStep}
 		w.Run(root, nil)
 		reachUnlock := false
